@@ -1317,6 +1317,35 @@ def c20_10(ck, prog):
         r.ok('dispatch:unhandled-call-answered-or-retried')
 
 
+def c20_11(ck, prog):
+    """A refused registration only warns: the warning helper decides about aborting by its own switch."""
+    I = 'dbus/dbus-internals.c'
+    r = ck.rule('C20.11', 'a refused registration (occupied path) and an unregister of a path that is not registered only '
+                'warn: _dbus_warn decides everything by its own switch `fatal_warnings` and _dbus_warn_check_failed by '
+                '`fatal_warnings_on_check_failed` (each function reads exactly the flag it is named for)', 'TAB',
+                breaks='with the library defaults (warnings not fatal, failed checks fatal) registering a handler on an '
+                'occupied path aborts the process that owns all the handlers instead of returning FALSE', floor=2)
+    want = {'_dbus_warn': 'fatal_warnings', '_dbus_warn_check_failed': 'fatal_warnings_on_check_failed'}
+    for fname, flag in want.items():
+        fn = prog.fn(fname, I)
+        read = set()
+        for blk in fn.blocks.values():
+            t = blk.get('term')
+            tops = [t['cond']] if t and isinstance(t.get('cond'), dict) else []
+            for ev in blk['events']:
+                tops += [x for x in (ev.get('e'), ev.get('init')) if isinstance(x, dict)]
+            for top in tops:
+                for x in walk(top):
+                    if is_ref(x) and x.get('kind') in ('global', 'slocal') and x.get('name', '').startswith('fatal_warnings'):
+                        read.add(x['name'])
+        key = '%s:own-switch' % fname
+        if read != {flag}:
+            r.violation(key, fname, I, fn.line, '%s consults %s; its own switch is %s' % (
+                fname, ', '.join(sorted(read)) or 'no switch', flag))
+        else:
+            r.ok(key)
+
+
 def run(ck):
     ck.explanation = (
         'Static rules over dbus/dbus-object-tree.c and the dispatch / registration entry points of '
@@ -1338,6 +1367,7 @@ def run(ck):
                       'as agreement between the three code sites; re-entrancy (handlers that register or unregister '
                       'while being dispatched) and the locking of the callbacks; the built-in Introspect XML')
     for v, prog in ck.programs(thorough_variants=('B',)):
+        c20_11(ck, prog)
         c20_1(ck, prog)
         c20_2(ck, prog)
         c20_3(ck, prog)
